@@ -56,10 +56,7 @@ class SynGen:
         n = rng.randint(1, 5)
         vals = []
         for _ in range(n):
-            l = self.literal()
-            if l.value is None:
-                l = ir.lit(1, ir.T_INT)
-            vals.append(l.value)
+            vals.append(self.literal().value)       # NULL is a literal too: (1, NULL, 2)
         return ir.lit(vals, ir.T_LIST)
 
     def primary(self, depth):
